@@ -8,3 +8,15 @@ reg('C08', 'exploration', 'runtime contract on build_filtering_func (both bindin
     'All pattern lists of length <=3 over a 14-pattern alphabet x all non-empty names over {a,b,.} up to length 4 are evaluated on the real predicate and compared with the union-of-positives-minus-negatives spec, plus order/duplication/monotonicity monitors; generated worlds are run with -t/-m/--layer and the executed tests, imported modules and run layers must equal what the spec accepts (contract active inside the run).',
     'Trusts re.search; candidate names are non-empty (real ids are).',
     'DESIGN.md 2/C08')
+reg('C01', 'fault_enumeration', 'offline state-machine oracle over the cross-process event trace of real runs (facts from layer/test hooks + formatter claims); fault injection in layer hooks',
+    'Random layer DAGs (class/instance layers, multiple inheritance, hooks independently absent) with tests per layer are run through the real runner under enumerated fault plans (setUp raises / tearDown raises / tearDown NotImplementedError at every single placement, sampled pairs) and option vectors (--layer, -x, --repeat, --shuffle, -j N); every process\'s recorded setUp/tearDown/test events are replayed through a set-of-layers state machine that asserts bases-before, derived-torn-down-before, exact closure at every test event, nothing after a NotImplementedError tear-down, empty at exit, resumed children one at a time.',
+    'Trusts the world hooks as truthful facts, O_APPEND atomicity and CLOCK_MONOTONIC across processes; graphs beyond 6 layers not generated.',
+    'DESIGN.md 2/C01')
+reg('C04', 'fault_enumeration', 'fault injection (exception class x phase x position x options) into real runs; trace + output oracles',
+    'One or two faulty tests (12 fault kinds incl. two-event kinds, sub-tests, unexpected success, SystemExit) or layer hooks with 13+ exception classes and hostile messages are placed at first/middle/last positions of 1-3 layer worlds and run with --buffer on/off, -v0..3, in-process and in children; oracle: run_internal returns, every other runnable test started, layer machine ends empty, a summary line per layer iteration and a totals line exist.',
+    'Exception classes are a fixed list of 14 (plus a hostile-__str__ class in thorough); MemoryError / BaseException other than SystemExit are outside the statement.',
+    'DESIGN.md 2/C04')
+reg('C05', 'exploration', 'online pushdown/episode checker over testSetUp/testTearDown/test facts of real runs; exhaustive outcome sequences up to length 3',
+    'All 2954 sequences over 14 outcome kinds up to length 3 (thorough: + 6000 sampled length 4-5) inside random layer stacks whose layers carry both/one/none of the per-test hooks, x --repeat, -x, --buffer, a sample on every installed CPython 3.9-3.13; each episode SU* T* TD* is judged for exact hook set, bases-first, exact mirror, balance around tests that never start, silence outside the stack.',
+    'Exhaustive only for sequence length <=3 within one class layer stack <=4 layers; other interpreters are sampled.',
+    'DESIGN.md 2/C05')
